@@ -53,6 +53,12 @@ def c01(w):
             v.append(("lifecycle:%s:%s%s" % (pat, _cls(w, n), kbd),
                       "doer %s (%s) went through %s" % (n, _cls(w, n), pat)))
             continue
+        # the lifecycle must be complete when the run ends (do() returned or raised), not finished
+        # later by garbage collection of an orphaned generator
+        patend = _pattern([e for e in w.trace[:w.end] if e[0] == n])
+        if patend != pat:
+            v.append(("lifecycle-incomplete-when-run-ends:%s:%s" % (patend, _cls(w, n)),
+                      "doer %s had only gone through %s when do() had %s" % (n, patend, w.result)))
     return v
 
 
